@@ -156,6 +156,7 @@ func (cs corruptsim) runMeta(c *Case, dir string, img []byte, e *work.Exec, out 
 		if out.Evals%64 == 0 {
 			Tick()
 		}
+		Journal(c, what)
 		im, derr := dec.Load(cur)
 		var want *model.Bucket
 		wantTxid := -1
